@@ -202,9 +202,15 @@ def run_property(prop, tier, seed, replay):
     for d in diffs[:5]:
         tag, cid, trace_lines, idx, il, ml = d
         profile = "conn" if tag.startswith("conn_") else ("pol" if tag == "conc_pol" else "conc" if tag.startswith("conc_") else ("limit" if tag == "limit" else ("cfg" if tag == "cfg" else "seq")))
+        symkinds = set(vlib.SYMKINDS.get(cid, set()))   # of the case as it ran (minimising re-runs it)
         with BuildLock():
             small = minimize(trace_lines, work, profile)
         relevant, kind = classify(prop, cfg, il, ml)
+        if not relevant and (symkinds & set(cfg.get("relevant", "RSMU"))):
+            # the first difference is of a kind the property does not speak about, but further on
+            # the two sides differ in one it does (a response, a record, a closure that one has
+            # and the other has not)
+            relevant = True
         if (tag.startswith("conc_") and not (il or "").startswith(("HANG", "STUCK"))
                 and cid not in {m["case"] for m in (monitor if (ok_r and ok_h) else [])}):
             # a schedule is replayed step for step on the model: a rewrite that changes the number of
